@@ -49,6 +49,8 @@ def build_arg(name, td, inputs):
     if k == "list":
         n = inputs.get(name + "#len", 0)
         return [build_arg(f"{name}[{i}]", td.args[0], inputs) for i in range(n)]
+    if k == "tuple":
+        return tuple(build_arg(f"{name}.{i}", t, inputs) for i, t in enumerate(td.args))
     v = inputs.get(name)
     if k == "int":
         return int(v) if v is not None else (td.args[0] or 0)
